@@ -43,6 +43,10 @@ pub fn install_panic_hook() {
     });
 }
 
+pub fn peek_panics() -> Vec<String> {
+    PANICS.lock().map(|p| p.clone()).unwrap_or_default()
+}
+
 pub fn take_panics() -> Vec<String> {
     std::mem::take(&mut *PANICS.lock().unwrap())
 }
